@@ -76,17 +76,17 @@ def run(tier):
     q = tier == 'quick'
     typing_is_context_free(chk, tier)
     M = os.path.join(ROOT, 'vf/ch/gettype.py')
-    ntok = 4 if q else 5
-    jobs = [chrun.Job(M, 'gt', 300 if q else 1500, subst={'PART = -1': f'PART = {k}', 'NTOK = 4': f'NTOK = {ntok}'}, label=f'gt[first kind {k}]', twin=(k in (4, 6))) for k in range(12)]
+    ntok, nk = (4, 9) if q else (5, 12)
+    jobs = [chrun.Job(M, 'gt', 300 if q else 2400, subst={'PART = -1': f'PART = {k}', 'NTOK = 4': f'NTOK = {ntok}', 'NK = 12': f'NK = {nk}'}, label=f'gt[first kind {k}]', twin=(k in (3, 5))) for k in range(nk)]
     jobs += [chrun.Job(M, 'gtype', 300 if q else 1200, subst={'PART = -1': f'PART = {p}'}, label=f'gtype[prefix {p}]', twin=(p == 0),
                        explain=lambda mod, a: dict(why=mod.gtype_why(*a[0]))) for p in range(7)]
     res = chrun.run_jobs(jobs)
     chrun.settle(chk, res, classify=lambda r: 'get_type:kernel-differs-from-spec' if r['func'] == 'gt' else 'get_type:parsed-statement',
                  make_replay=lambda r: dict(observed=(r.get('explain') or {}).get('why')))
-    chk.bounds = dict(kernel=f'statements of {ntok} tokens over 12 kinds (whitespace, newline, comment token, Comment group, DML x2, DDL with irregular whitespace, CTE, Identifier, IdentifierList, other keyword, name)',
+    chk.bounds = dict(kernel=f'statements of {ntok} tokens over {nk} kinds (whitespace, newline, comment token, Comment group, DML x2, DDL with irregular whitespace, CTE, Identifier, IdentifierList, other keyword, name)',
                       parsed='12 leading keywords x 7 prefixes of whitespace/comments x 3 casings x 8 continuations; 5 WITH forms (incl. comments between the CTE list and the DML keyword) x 4 DML keywords',
                       outside='other statement shapes')
-    chk.states = 12 ** ntok
+    chk.states = nk ** ntok
     chk.sample(dict(harness='vf/ch/gettype.py:gtype', example='WITH a AS (select 1)\n-- main query\nInsert * from a', expected='INSERT'))
     chk.assumptions += ['WITH statements: decided for the shape WITH <definitions> <DML>; other shapes after WITH are outside']
     return chk.finish()
